@@ -35,12 +35,15 @@ func init() {
 	unique["networks.*.labels"] = keyValueIndexer
 	unique["networks.*.ipam.options"] = keyValueIndexer
 	unique["volumes.*.labels"] = keyValueIndexer
+	unique["secrets.*.labels"] = keyValueIndexer
+	unique["configs.*.labels"] = keyValueIndexer
 	unique["services.*.annotations"] = keyValueIndexer
 	unique["services.*.build.args"] = keyValueIndexer
 	unique["services.*.build.additional_contexts"] = keyValueIndexer
 	unique["services.*.build.platform"] = keyValueIndexer
 	unique["services.*.build.tags"] = keyValueIndexer
 	unique["services.*.build.labels"] = keyValueIndexer
+	unique["services.*.build.ssh"] = keyValueIndexer
 	unique["services.*.cap_add"] = keyValueIndexer
 	unique["services.*.cap_drop"] = keyValueIndexer
 	unique["services.*.devices"] = volumeIndexer
